@@ -613,6 +613,13 @@ def check_property(root, pid, tier, seed):
                 else:
                     assumptions_found.setdefault(cls, set()).add(l)
             bfun = set(base.get(u["unit"], {}).get("functions", []))
+            realigned_fns = {}
+            try:
+                for it in json.load(open(r["map"])).get("items", []):
+                    if it.get("realigned_blocks"):
+                        realigned_fns[it.get("name")] = it["realigned_blocks"]
+            except Exception:
+                pass
             if r["status"] == "fail":
                 scope = u.get("scope")
                 for fl in r["failures"]:
@@ -636,6 +643,22 @@ def check_property(root, pid, tier, seed):
                         # a function of this unit that carries another property: not this property's obligation
                         out_of_scope.append("%s::%s — %s" % (u["unit"], fl.get("function"), fl["message"]))
                         continue
+                    # A function whose statements had to be re-anchored (inserted / moved / removed statements) or whose overlay lost
+                    # clauses (lenient extraction) may fail obligations only because a proof hint now sits in the wrong place: a hint
+                    # assertion, a loop invariant, a bounds / overflow side condition of the standard library.  In such a function only
+                    # CONTRACT clauses decide: postconditions, property-tagged assertions, closure postconditions, and preconditions of
+                    # functions of /repo (incl. the unreachable-panic marker).  Everything else is undecided - never an alarm.
+                    restructured = bool(realigned_fns.get(fl.get("function"))) or bool(r.get("lenient"))
+                    if restructured and not fl.get("kani"):
+                        msg0 = fl.get("message", "")
+                        rend = fl.get("rendered", "")
+                        lib_pre = msg0.startswith("precondition not satisfied") and re.search(r"-->\s+(std_specs|vstd|[^\n]*/vstd/)", rend.split("\n", 3)[-1] if rend.count("\n") >= 3 else rend) is not None
+                        is_contract = (msg0.startswith("postcondition not satisfied") or bool(tags) or "post-condition of closure" in msg0
+                                       or (msg0.startswith("precondition not satisfied") and not lib_pre))
+                        if not is_contract:
+                            undecided.append("unit %s: %s in %s, whose statements were re-anchored after an edit (%s): a proof hint may merely sit in the wrong place — undecided" % (
+                                u["unit"], msg0, fl.get("function"), "lenient extraction" if r.get("lenient") else ",".join(realigned_fns.get(fl.get("function")) or [])))
+                            continue
                     if fl.get("function") is None and not fl.get("kani"):
                         # the failing obligation lies in overlay text that is not extracted from /repo (a lemma or a spec function):
                         # no edit of /repo can falsify it, so this is solver instability, never a violation
